@@ -44,6 +44,9 @@ fn main() {
     let mut v: Vec<&str> = vec![];
     if ys.iter().any(|(_, x)| !tags.contains(x)) { v.push("yields_only_values_of_this_cycle"); v.push("K9_drain_reads_claimed_but_unwritten_slot"); }
     for t in &tags { if ys.iter().filter(|(_, x)| x == t).count() > 1 { v.push("no_value_yielded_twice"); } }
+    if tags.len() <= 2 {
+        for t in &tags { if !ys.iter().any(|(_, x)| x == t) { println!("value {} pushed within the capacity is yielded by no drain", t); v.push("every_value_yielded_when_within_capacity"); v.push("K10_reset_wipes_a_claimed_slot"); } }
+    }
     if panicked { v.push("no_panic"); }
     finish(&v, &plan)
 }
